@@ -68,6 +68,34 @@ theorem C15_validation_classes (a : Args) :
   · intro ht; simp [validate, ht, validateTimeout]
   · intro t ht h0; simp [validate, ht, validateTimeout, h0]
 
+/-- **Iter = traditional, all configurations at once.**  Any connection state (any flag value for the
+    family: None, True, False — configured or learned; server with or without pull; any foreign contexts in
+    its table), any arguments of the six generator methods: `k` times `next()` gives
+    (1) the first `k` objects of the traditional result unchanged, then StopIteration (pull path), or
+    (2) the first `k` objects of the traditional result with completed paths, then StopIteration (fallback), or
+    (3) nothing: the very first `next()` raises ValueError, TypeError or a CIMError.
+    No fourth behaviour exists (no partial result followed by an error, no duplicates, no reordering). -/
+theorem C15_iter_equals_traditional (c : Conn) (a : Args) (k : Nat) (hinv : Inv c.srv) (hq : a.fam ≠ .query) :
+    outcome c a k = specOf a.tradObjs k ∨
+    outcome c a k = specOf (fallbackItems a) k ∨
+    (∃ e, (e = .valueError ∨ e = .typeError ∨ ∃ code, e = .cimError code) ∧
+      (k = 0 ∨ outcome c a k = ([], some (.raise e)))) := by
+  rcases classify c a with ⟨hv, hu, hd, hns, hp, ht⟩ | ⟨hv, hu, hr, ht⟩ | ⟨e, he⟩
+  · exact Or.inl (pull_path_spec c a k hv hu hd hns hp ht hinv hq).1
+  · exact Or.inr (Or.inl (fallback_spec c a k hv hu hr ht).1)
+  · refine Or.inr (Or.inr ⟨e, ?_, ?_⟩)
+    · have := (start_res c a).1
+      simp only [next] at he
+      rw [he] at this
+      rcases this with h | h
+      · exact h
+      · cases h
+    · cases k with
+      | zero => exact Or.inl rfl
+      | succ k =>
+        have := takeN_raise he k
+        exact Or.inr (by simp only [outcome]; rw [this.1, this.2])
+
 /-! ### pull path -/
 
 /-- **Iter = traditional (pull path).**  Connection with the family's flag at None or True, server with
@@ -187,6 +215,15 @@ theorem C15_fallback_reject_iff (a : Args) :
   cases hf : a.fam <;>
     simp [fallbackReject, hf, Family.row, Family.idx, Pywbem.Generated.IterOps.rows, List.getD]
 
+/-- **IterQueryInstances when the server's query operation fails** (the mock's ExecQuery always answers
+    CIM_ERR_NOT_SUPPORTED; OpenQueryInstances passes that on): the call raises a documented exception, no
+    enumeration context is created, whatever the flag and the capability.  (The method is not a generator: the
+    exception comes out of the call itself.) -/
+theorem C15_query_traditional_fails (c : Conn) (a : Args) (code : Nat) (h : a.tradErr = some code) :
+    ∃ e, (callEager c a).2 = .raise e ∧ (e = .valueError ∨ e = .typeError ∨ ∃ code', e = .cimError code') ∧
+      (callEager c a).1.srv = c.srv :=
+  callEager_traderr c a code h
+
 /-! ### histories: any number of generators, interleaved, on one connection -/
 
 /-- **Flags are monotone.**  Over any history of consumer events (calls of all seven methods, next, close,
@@ -225,6 +262,29 @@ theorem C15_no_context_leak (s : State) (u : Option Bool) (evs : List Ev)
     | cons x rest =>
       obtain ⟨j, hj⟩ := h.owned x (by rw [hc]; simp)
       exact absurd hj (hnone j x.id)
+
+/-- **Interleaved generators each equal their traditional result.**  Server with an empty context table that
+    keeps supporting pull, fresh connection with any `use_pull_operations`, ANY history of calls (six generator
+    methods with any arguments; IterQueryInstances with a failing ExecQuery), next / close / drop / throw on any
+    number of generators in any interleaving.  An observer notes for generator `j` (creation order): `trad j` /
+    `comp j` = traditional result of its call / the same with completed paths, `got j` = the objects it has
+    yielded so far, `stopped j` = it ended with StopIteration.  Then at every point of the history: what `j` has
+    yielded is a prefix of `exp j`, which is `trad j` or `comp j`; and if it ended with StopIteration it has
+    yielded exactly that — nothing lost, duplicated or reordered, no matter what the other generators did to
+    the shared server in between. -/
+theorem C15_interleaved_generators_equal_traditional (s : State) (u : Option Bool) (evs : List Ev)
+    (hs : s.ctxs = []) (hd : s.disabled = false) (hev : ∀ ev ∈ evs, Allowed ev) (j : Nat) :
+    let gh := (runG (fresh s u) {} evs).2
+    gh.got j <+: gh.exp j ∧ (gh.stopped j = true → gh.got j = gh.exp j) ∧
+    (j < (runW (fresh s u) evs).1.n → gh.exp j = gh.trad j ∨ gh.exp j = gh.comp j) := by
+  intro gh
+  have hinv : Inv s :=
+    ⟨fun c1 h1 => (by rw [hs] at h1; cases h1), fun c1 h1 => (by rw [hs] at h1; cases h1),
+     fun c1 h1 => (by rw [hs] at h1; cases h1)⟩
+  have hi := iinv_run evs (iinv_fresh s u hs hd hinv) hev
+  have hp := (hi.ok j).prefix
+  refine ⟨hp.1, hp.2, fun hj => hi.expok j ?_⟩
+  rw [runG_world]; exact hj
 
 /-- the server refusing CloseEnumeration is the one way a context can outlive its generator: with pull
     switched off between `next()` and `close()`, `close()` raises CIM_ERR_NOT_SUPPORTED and the context
@@ -359,5 +419,10 @@ example : (runW (fresh { nss := [0], disabled := true } none) steadyHistory).1.c
 example : outcome (runW (fresh { nss := [0], disabled := true } none) steadyHistory).1.conn demoArgs 6 =
     ([7, 11, 15, 19, 23], some .stop) := by decide
 example : ∀ ev ∈ demoHistory, CallOk ev := by decide
+
+-- C15_interleaved_generators_equal_traditional on demoHistory: generator 0 exhausted, generator 1 closed after 2
+example : let gh := (runG (fresh { nss := [0] } none) {} demoHistory).2
+    gh.got 0 = [6, 10, 14, 18, 22] ∧ gh.stopped 0 = true ∧ gh.got 1 = [6, 10] ∧ gh.stopped 1 = false ∧
+    gh.exp 1 = [6, 10, 14, 18, 22] := by decide
 
 end C15
